@@ -86,7 +86,7 @@ INVALID = {
                  'q-deg2', 'q-angular-speed'],
     'angle': ['plain-float', 'str', 'none', 'q-length', 'q-arr1d', 'q-dimensionless', 'list', 'q-time', 'q-solid-angle', 'q-deg2', 'q-angular-speed'],
     'pix-scalar': ['pix-1d', 'pix-2d', 'sky-scalar', 'tuple', 'none', 'str', 'plain-float', 'list'],
-    'pix-1d': ['pix-scalar', 'pix-2d', 'pix-col', 'pix-3d', 'sky-1d', 'tuple', 'none', 'list', 'arr2d'],
+    'pix-1d': ['pix-scalar', 'pix-2d', 'pix-col', 'pix-3d', 'pix-row-col', 'pix-flat-col', 'sky-1d', 'tuple', 'none', 'list', 'arr2d'],
     'sky-scalar': ['sky-1d', 'pix-scalar', 'tuple', 'none', 'str', 'q-angle'],
     'sky-1d': ['sky-scalar', 'sky-2d', 'pix-1d', 'none', 'list'],
     'nvertices': ['zero', 'neg', 'nan', 'str', 'none', 'list'],
@@ -113,6 +113,9 @@ def make_value(vid, prng):
         'q-solid-angle': 2 * u.sr, 'q-deg2': 3 * u.deg ** 2, 'q-angular-speed': 3 * u.deg / u.s,
         'q-arr1d': [1, 2] * u.deg, 'zero-q': 0 * u.arcsec, 'neg-q': -2 * u.arcsec, 'nan-q': np.nan * u.deg, 'inf-q': np.inf * u.deg,
         'pix-scalar': PixCoord(1.5, 2.5), 'pix-1d': PixCoord([1.0, 2, 3], [3.0, 4, 6]), 'pix-2d': PixCoord(np.ones((2, 2)), np.ones((2, 2))),
+        # x and y of equal size but different shapes (they broadcast to a grid, which is not a vertex list)
+        'pix-row-col': PixCoord(np.array([[1.0, 5.0, 3.0]]), np.array([[1.0], [1.0], [4.0]])),
+        'pix-flat-col': PixCoord([1, 5, 3], [[1], [1], [4]]),
         'pix-col': PixCoord(np.array([[1.0], [2.0], [3.0]]), np.array([[3.0], [4.0], [6.0]])), 'pix-3d': PixCoord(np.ones((3, 1, 1)), np.ones((3, 1, 1))),
         'sky-scalar': SkyCoord(10, 20, unit='deg'), 'sky-1d': SkyCoord([10, 11, 12], [20, 21, 20], unit='deg'),
         'sky-2d': SkyCoord(np.ones((2, 2)), np.ones((2, 2)), unit='deg'),
